@@ -187,6 +187,9 @@ FUNCTIONS = [
         # ... and then, and only then, everything the connection held has been released, exactly once
         ensures (vs_exc == 0 && g_ondisc == 1) ==> (!this->peers.present && !this->toWrite.present && g_unreg == 1 && g_closed == 1)
         ensures g_ondisc == 0 ==> (this->peers.present && g_unreg == 0 && g_closed == 0 && this->toWrite.present == OLD(this->toWrite.present))
+        # the descriptor is registered edge-triggered: the read loop is left only when recv() has nothing more (would-block), reports end of
+        # stream or fails -- never after a successful read, or an end of stream that arrived with the data would never be noticed
+        ensures vs_exc == 0 ==> g_last_recv <= 0
         ensures !g_lock_held""" % GH,
      'loops': ["""
         assigns this->peers, this->toWrite, %s, $HOISTED
